@@ -336,9 +336,62 @@ fn header_numbers() -> Vec<(bool, u64)> {
     out
 }
 
+/// Residuals as only the parser can produce them: hand-written bit strings using the 5-bit
+/// parameter method (RICE2) and parameters the constructors refuse.
+fn run_parsed_rice2(rep: &Report, local: &mut Local) {
+    use super::c11::BitStr;
+    for method in [0u64, 1] {
+        for po in 0..=2usize {
+            for param in [0u64, 3, 14, 15, 16, 30] {
+                if method == 0 && param > 14 {
+                    continue;
+                }
+                for (bs, warmup) in [(16usize, 0usize), (64, 2), (32, 1)] {
+                    let mut b = BitStr::default();
+                    b.push(method, 2);
+                    b.push(po as u64, 4);
+                    let plen = bs >> po;
+                    for part in 0..(1usize << po) {
+                        b.push(param, if method == 0 { 4 } else { 5 });
+                        for t in part * plen..(part + 1) * plen {
+                            if t < warmup {
+                                continue;
+                            }
+                            let q = (t % 3) as usize;
+                            b.push_zeros(q);
+                            b.push(1, 1);
+                            b.push((t as u64).wrapping_mul(0x9E37_79B9) & ((1u64 << param) - 1), param as usize);
+                        }
+                    }
+                    let nbits = b.len;
+                    let bytes = b.bytes();
+                    let cj = || json!({"parsed_residual": {"method": method, "partition_order": po, "parameter": param, "block_size": bs, "warmup": warmup}});
+                    local.evals += 1;
+                    let parsed = panicx::catch(|| {
+                        flacenc::component::parser::residual::<((&[u8], usize), nom::error::ErrorKind)>(bs, warmup)((&bytes[..], 0)).map(|((rest, off), r)| (bytes.len() * 8 - (rest.len() * 8 - off), r)).map_err(|_| ())
+                    });
+                    match parsed {
+                        Ok(Ok((used, r))) => {
+                            if used != nbits {
+                                local.outcome("parsed_residual:length_differs_not_judged_here");
+                            }
+                            if check_component(rep, local, "parsed:residual_handwritten", &r, &cj, (bs + po) as u64, false).is_some() {
+                                local.nontrivial.insert(crate::universe::fnv(&cj().to_string()));
+                            }
+                        }
+                        // what the parser refuses or panics on is C15/C16's subject
+                        _ => local.outcome("parsed_residual:not_parsed"),
+                    }
+                }
+            }
+        }
+    }
+}
+
 fn run_headers_and_metadata(rep: &Arc<Report>) {
     let nums = header_numbers();
     let mut local = Local::default();
+    run_parsed_rice2(rep, &mut local);
     let specs: Vec<(usize, usize, usize, u8)> = vec![(192, 16, 44100, 1), (4096, 24, 96000, 2), (33, 8, 12345, 8), (256, 12, 65540, 3), (32767, 20, 1000, 1), (1000, 16, 95999, 2)];
     for (bs, bps, rate, ch) in &specs {
         for (variable, n) in &nums {
@@ -377,7 +430,7 @@ fn run_headers_and_metadata(rep: &Arc<Report>) {
         }
     }
     rep.merge(local);
-    rep.add_rule("FrameHeader::new over Frame(n)/StartSample(n) within +-64 of every coded-length boundary (2^7..2^31 / 2^36) x 6 block-size/width/rate/channel specs; MetadataBlockData::new_unknown tags{1,2,126} x sizes{0,1,255,65536}, alone and in a stream");
+    rep.add_rule("hand-written residual bit strings (4-bit and 5-bit parameter methods, parameters up to 30, partition orders 0..=2) through parser::residual; FrameHeader::new over Frame(n)/StartSample(n) at every power of two +-2 and within +-64 of every coded-length boundary (2^7..2^31 / 2^36) x 6 block-size/width/rate/channel specs; MetadataBlockData::new_unknown tags{1,2,126} x sizes{0,1,255,65536}, alone and in a stream");
 }
 
 pub fn run(args: &Args, rep: &Arc<Report>) {
